@@ -75,6 +75,31 @@ def corpus(tier):
             out.append('-' + d + '.' + tail + '5e+10' if tail else '-' + d + '.5e+10')
     out += ['1.0000000000000002', '1.00000000000000011102230246251565404236316680908203125', '1.00000000000000011102230246251565404236316680908203126',
             '1.00000000000000011102230246251565404236316680908203124', '0.1', '0.2', '0.3', '0.30000000000000004', '123.456', '6.02214076e23', '1.6e-19', '9.109e-31']
+    # F. exponents around and beyond the ends of the power-of-ten table (every converter must screen them)
+    for e in list(range(300, 420, 1 if full else 2)) + [1000, 5000, 99999]:
+        out.append('1e%d' % e)
+        out.append('9e%d' % e)
+        out.append('123456789012345678e%d' % (e - 17))
+        out.append('1e-%d' % e)
+        out.append('9999999999999999999e-%d' % e)
+        out.append('0.0000001e%d' % e)
+    # G. a zero mantissa with a fraction and / or an exponent is zero, whatever the exponent
+    for kz in (21, 22, 23, 24, 30, 100, 306, 307, 330, 349, 400):
+        out.append('0.' + '0' * kz)
+        out.append('-0.' + '0' * kz)
+    for t in ('0.0', '0.00', '0e5', '0.0e5', '0.000e-400', '-0.0e10', '0.00000000000000000000', '0.00000000000000000000e+300', '-0.000E-1', '0e0', '0E+999', '0.0e-999'):
+        out.append(t)
+    # H. more than 19 digits where the dropped digits decide the rounding: around the midpoints of adjacent doubles
+    #    above 2^64, with an exponent / fraction directly behind the dropped digits
+    for k in range(64, 72):
+        ulp = 1 << (k - 52)
+        for j in (0, 1, 5):
+            mid = (1 << k) + j * ulp + ulp // 2
+            for d in (-1, 0, 1):
+                for suf in ('e0', 'E+1', '.0', '.5e1', 'e-2'):
+                    out.append(str(mid + d) + suf)
+                out.append(str(mid + d) + '000' + 'e-3')
+                out.append(str((mid + d) * 10 + 1) + 'e-1')
     seen = set()
     res = []
     for t in out:
